@@ -437,3 +437,22 @@ impl CharRefTokenizer {
         }
     }
 }
+
+#[cfg(html5ever_verif)]
+impl CharRefTokenizer {
+    /// Verification hook: copy of every field.
+    pub(super) fn verif_fields(&self) -> super::verif::VerifCharRef {
+        super::verif::VerifCharRef {
+            state: format!("{:?}", self.state),
+            in_attribute: self.is_consumed_in_attribute,
+            addnl_allowed: None,
+            num: self.num,
+            num_too_big: self.num_too_big,
+            seen_digit: self.seen_digit,
+            hex_marker: self.hex_marker,
+            name_buf: self.name_buf_opt.as_ref().map(|t| t.to_string()),
+            name_match: self.name_match,
+            name_len: self.name_len,
+        }
+    }
+}
